@@ -10,7 +10,8 @@
 (*                                                                            *)
 (* Messages are abstract records.  A request is                               *)
 (*   [m  method: "GET","HEAD","POST","CONNECT", or "BAD" (unparsable bytes),  *)
-(*    h  host id ("" = no/empty Host), cl  close indication,                  *)
+(*    h  host spelling id (DOMAIN HostDef; "" = no/empty Host),               *)
+(*    cl  close indication,                                                   *)
 (*    au proxy credentials: "none","bad","good",                              *)
 (*    hs set of header classes present, bd body kind]                         *)
 (* and a response is [st status class, cl, hs, bd].  The driver renders a     *)
@@ -31,7 +32,8 @@ CONSTANTS
     RespMsgs,   \* names (1..n) of the response records the origin may send
     ReqDef,     \* [ReqMsgs -> request record] (a tuple)
     RespDef,    \* [RespMsgs -> response record] (a tuple)
-    ReqNext,    \* subset of ReqMsgs the client may send after its first message (= ReqMsgs except in lattice runs)
+    ReqNext(_), \* ReqNext(f): subset of ReqMsgs the client may send after its first message f (= ReqMsgs except in lattice
+                \* runs and in the host-pair runs, where follow-ups stay in the family of spellings of the first host)
     RespNext,   \* subset of RespMsgs the origin may send after its first message
     MaxReq,     \* bound on the number of client messages
     MaxResp,    \* bound on the number of origin messages (interim + final)
@@ -90,10 +92,60 @@ ReqBodies == {"none", "len", "chunked", "trailer", "nomtrailer"}
 RespBodies == ReqBodies \cup {"eof"}
 Interims == {"100", "103"}
 NoBodyFinals == {"204", "304"}
-Finals == {"200", "404", "301s", "302o", "307r"} \cup NoBodyFinals
+\* redirects: "301s" Location = the very Host of the request, "307r" a relative Location, and Locations elsewhere:
+\* "302o" another domain, "302p" the same domain/address on another port, "302c" the same host in another letter
+\* case (IPv6: another spelling of the address), "302d" the same host with the default port written out / left off
+ElsewhereRedirects == {"302o", "302p", "302c", "302d"}
+Finals == {"200", "404", "301s", "307r"} \cup ElsewhereRedirects \cup NoBodyFinals
 FilterBody(b) == IF b = "nomtrailer" THEN "trailer" ELSE b
 
 NoResp == [st |-> "BAD", cl |-> FALSE, hs |-> {}, bd |-> "none"]
+
+-----------------------------------------------------------------------------
+(* Hosts.  A request names its destination by a host spelling (the Host      *)
+(* field / the authority of an absolute-form target).  HostDef gives, for    *)
+(* every spelling id the driver can render, the origin it denotes:           *)
+(*   n  the case-folded domain name or the IP address, p  the port (80 when  *)
+(*   the spelling has none: hostHeaderToAddr), k  "dom" | "ip4" | "ip6".     *)
+(* Two spellings name the same origin iff n and p agree.                     *)
+(*   a   origin-a.test:8080        aP  origin-a.test:8081                    *)
+(*   aC  ORIGIN-A.Test:8080        aCP Origin-A.TEST:8081                    *)
+(*   aN  origin-a.test                                                       *)
+(*   b   origin-b.test                                                       *)
+(*   d   origin-d.test             dE  origin-d.test:80                      *)
+(*   dC  Origin-D.Test             dP  origin-d.test:8080                    *)
+(*   i   192.0.2.10:8080           iP  192.0.2.10:8081                       *)
+(*   iO  192.0.2.11:8080           iN  192.0.2.10     iE  192.0.2.10:80      *)
+(*   v   [2001:db8::1]:8080        vP  [2001:db8::1]:8081                    *)
+(*   vC  [2001:DB8:0:0::1]:8080                                              *)
+HostDef == [
+    a   |-> [n |-> "a",  p |-> 8080, k |-> "dom"],
+    aP  |-> [n |-> "a",  p |-> 8081, k |-> "dom"],
+    aC  |-> [n |-> "a",  p |-> 8080, k |-> "dom"],
+    aCP |-> [n |-> "a",  p |-> 8081, k |-> "dom"],
+    aN  |-> [n |-> "a",  p |-> 80,   k |-> "dom"],
+    b   |-> [n |-> "b",  p |-> 80,   k |-> "dom"],
+    d   |-> [n |-> "d",  p |-> 80,   k |-> "dom"],
+    dE  |-> [n |-> "d",  p |-> 80,   k |-> "dom"],
+    dC  |-> [n |-> "d",  p |-> 80,   k |-> "dom"],
+    dP  |-> [n |-> "d",  p |-> 8080, k |-> "dom"],
+    i   |-> [n |-> "i",  p |-> 8080, k |-> "ip4"],
+    iP  |-> [n |-> "i",  p |-> 8081, k |-> "ip4"],
+    iO  |-> [n |-> "i2", p |-> 8080, k |-> "ip4"],
+    iN  |-> [n |-> "i",  p |-> 80,   k |-> "ip4"],
+    iE  |-> [n |-> "i",  p |-> 80,   k |-> "ip4"],
+    v   |-> [n |-> "v",  p |-> 8080, k |-> "ip6"],
+    vP  |-> [n |-> "v",  p |-> 8081, k |-> "ip6"],
+    vC  |-> [n |-> "v",  p |-> 8080, k |-> "ip6"]]
+HostIds == DOMAIN HostDef
+Origin(h) == [n |-> HostDef[h].n, p |-> HostDef[h].p]
+\* what C16 means by "a different host": another destination.  "" (no Host) names no origin at all.
+SameOrigin(h1, h2) == h1 # "" /\ h2 # "" /\ Origin(h1) = Origin(h2)
+\* what the code compares (server.go: req.Host != fixedHost, url.Host vs req.Host): the spellings, as strings.
+\* Equal spellings name the same origin; a follow-up (or a Location) that names the same origin in another
+\* spelling ends the connection in the code and in this model, which C16 allows but does not demand: the
+\* driver reports a proxy that forwards it instead as drift, not as a violation.
+SameSpelling(h1, h2) == h1 = h2
 
 \* what the origin must receive for client request r: method, target (host), end-to-end fields and body
 \* unchanged; hop-by-hop fields, nominated fields, Upgrade and proxy credentials gone
@@ -105,8 +157,8 @@ FilterResp(s) == [st |-> s.st, hs |-> s.hs \cap RespKept, bd |-> FilterBody(s.bd
 
 Interim(s) == s.st \in Interims
 \* serverForwardResponses: resp.Close (Connection: close, or a body delimited by EOF) or a 301/302/307 whose
-\* Location names another host
-RespCloses(s) == s.cl \/ s.st = "302o" \/ s.bd = "eof"
+\* Location does not spell the request's Host
+RespCloses(s) == s.cl \/ s.st \in ElsewhereRedirects \/ s.bd = "eof"
 
 Rq(i) == ReqDef[sent[i]]            \* the i-th client message
 Rs(j) == RespDef[osent[j].id]       \* the j-th origin message
@@ -144,7 +196,7 @@ Init ==
 (* Environment: client                                                       *)
 ClientSend(id) ==
     /\ EnvOK /\ ~Terminal /\ ~cclosed /\ Len(sent) < MaxReq
-    /\ sent # <<>> => id \in ReqNext
+    /\ sent # <<>> => id \in ReqNext(sent[1])
     /\ sent' = Append(sent, id)
     /\ act' = [n |-> "ClientSend", i |-> Len(sent) + 1, msg |-> ReqDef[id]]
     /\ UNCHANGED <<authOn, phase, cnext, cclosed, cdead, fixedHost, first, fpc, fcur, reqQ, qclosed, nann,
@@ -278,8 +330,11 @@ FRead ==
                    THEN FFinish("err") /\ fcur' = fcur /\ act' = [n |-> "FRead", out |-> "readerr"]
                  ELSE IF r.m = "CONNECT"
                    THEN FFinish("eof") /\ fcur' = fcur /\ act' = [n |-> "FRead", out |-> "connect"]
-                 ELSE IF r.h # fixedHost
-                   THEN FFinish("eof") /\ fcur' = fcur /\ act' = [n |-> "FRead", out |-> "hostchanged"]
+                 ELSE IF ~SameSpelling(r.h, fixedHost)
+                   THEN \* "hostchanged": another origin (C16: must end); "respelled": the same origin spelled
+                        \* differently (the code ends the connection too; C16 does not decide it)
+                        FFinish("eof") /\ fcur' = fcur
+                        /\ act' = [n |-> "FRead", out |-> IF SameOrigin(r.h, fixedHost) THEN "respelled" ELSE "hostchanged"]
                  ELSE /\ fcur' = cnext /\ fpc' = "announce" /\ UNCHANGED <<qclosed, oeof>>
                       /\ act' = [n |-> "FRead", out |-> "next"]
 
@@ -368,6 +423,11 @@ OriginSend(id) ==
     /\ LET i == IF NFinals < Len(orx) THEN orx[NFinals + 1] ELSE 0
            s == RespDef[id] IN
        /\ s.bd = "eof" => i > 0 /\ Rq(i).m # "HEAD" /\ s.st \in {"200", "404"}
+       \* a Location derived from the Host of the answered request: another letter case needs letters, the
+       \* default-port variants need a host on port 80
+       /\ s.st \in {"302p", "302c", "302d"} => i > 0
+       /\ s.st = "302c" => (i > 0 /\ HostDef[Rq(i).h].k # "ip4")
+       /\ s.st = "302d" => (i > 0 /\ HostDef[Rq(i).h].p = 80)
        /\ osent' = Append(osent, [for |-> i, id |-> id])
        /\ oclosedW' = (s.bd = "eof")     \* a body delimited by EOF ends with the origin closing
        /\ act' = [n |-> "OriginSend", j |-> Len(osent) + 1, for |-> i, head |-> (i > 0 /\ Rq(i).m = "HEAD"), msg |-> s]
@@ -401,7 +461,8 @@ TypeOK ==
     /\ cnext \in 1..(Len(sent) + 1) /\ rnext \in 1..(Len(osent) + 1)
     /\ oeof \in {"open", "eof", "err"}
     /\ \A k \in 1..Len(reqQ) : reqQ[k] \in 1..Len(sent)
-    /\ \A i \in 1..Len(sent) : sent[i] \in ReqMsgs
+    /\ \A i \in 1..Len(sent) : sent[i] \in ReqMsgs /\ Rq(i).h \in HostIds \cup {""}
+    /\ fixedHost \in HostIds \cup {""}
 
 \* the request queue never exceeds its capacity ...
 QueueBound == Len(reqQ) <= QueueCap
@@ -443,10 +504,18 @@ InOrder ==
     /\ \A p \in 1..Len(FwdIdx) : FwdIdx[p].j = p /\ FwdIdx[p].q = osent[p].for
     /\ \A p, p2 \in 1..Len(crx) : p < p2 /\ crx[p].k = "fwd" => crx[p2].k \in {"fwd", "502"}
 
-\* C16: a request for another host, a later CONNECT (or unparsable bytes) is never sent, nor anything after it
-GoodFollower(i) == Rq(i).m \notin {"CONNECT", "BAD"} /\ Rq(i).h = fixedHost
+\* C16: a request for another host (= another origin: domain, address or port), a later CONNECT (or unparsable
+\* bytes) is never sent, nor anything after it
+GoodFollower(i) == Rq(i).m \notin {"CONNECT", "BAD"} /\ SameOrigin(Rq(i).h, fixedHost)
 WrongHostNeverSent ==
     \A k \in 1..Len(orx) : \A i \in first..orx[k] : GoodFollower(i)
+\* ... and it ends the proxy connection: once F has read such a request it has stopped for good
+OtherOriginEnds ==
+    phase \in {"fwd", "done"} =>
+        \A i \in (first + 1)..(cnext - 1) : ~GoodFollower(i) => fpc = "done" /\ qclosed
+\* the code's rule is stricter than C16's (model self-check): only requests that spell the first Host are forwarded
+SpellingDecides ==
+    \A k \in 1..Len(orx) : SameSpelling(Rq(orx[k]).h, fixedHost)
 
 \* C16: a close indication (request or response) ends the proxy connection once the final response is delivered;
 \* nothing is delivered after it
